@@ -239,7 +239,9 @@ class DatasetOnDisk(GetSetDelAttrMixin, NetCDFOnDisk, AbstractDataset):
 
         # first load dimensions
         for dim in dims:
-            data.axes.append(self.axes[dim][dict_indices[dim]])
+            ax = self.axes[dim][dict_indices[dim]]
+            if np.ndim(ax) != 0: # a dimension indexed with a scalar is dropped
+                data.axes.append(ax)
 
         # then normal variables
         for nm in names:
